@@ -1272,9 +1272,83 @@ func (t *tr) globalFuncCallee(cc *ssa.CallCommon) (string, *ssa.Function) {
 	return "", nil
 }
 
+// concreteRecv: the concrete (pointer) type an interface value is statically known to hold: it is made by MakeInterface
+// here, or returned by a static callee all of whose returns make it from the same type (e.g. NewChunkedWriter). nil when
+// unknown.
+func concreteRecv(v ssa.Value, depth int) types.Type {
+	if depth > 4 {
+		return nil
+	}
+	switch x := v.(type) {
+	case *ssa.MakeInterface:
+		return x.X.Type()
+	case *ssa.ChangeInterface:
+		return concreteRecv(x.X, depth+1)
+	case *ssa.Phi:
+		var ty types.Type
+		for _, e := range x.Edges {
+			et := concreteRecv(e, depth+1)
+			if et == nil || (ty != nil && !types.Identical(ty, et)) {
+				return nil
+			}
+			ty = et
+		}
+		return ty
+	case *ssa.Call:
+		f := x.Call.StaticCallee()
+		if f == nil || len(f.Blocks) == 0 || f.Signature.Results().Len() != 1 {
+			return nil
+		}
+		var ty types.Type
+		for _, b := range f.Blocks {
+			for _, ins := range b.Instrs {
+				r, ok := ins.(*ssa.Return)
+				if !ok {
+					continue
+				}
+				et := concreteRecv(r.Results[0], depth+1)
+				if et == nil || (ty != nil && !types.Identical(ty, et)) {
+					return nil
+				}
+				ty = et
+			}
+		}
+		return ty
+	}
+	return nil
+}
+
+// devirtualize: the method an invoke call is statically known to reach (pointer receivers only).
+func (t *tr) devirtualize(cc *ssa.CallCommon) (*ssa.Function, types.Type) {
+	if !cc.IsInvoke() {
+		return nil, nil
+	}
+	ct := concreteRecv(cc.Value, 0)
+	if ct == nil {
+		return nil, nil
+	}
+	if _, isPtr := ct.Underlying().(*types.Pointer); !isPtr {
+		return nil, nil
+	}
+	sel := t.prog.MethodSets.MethodSet(ct).Lookup(cc.Method.Pkg(), cc.Method.Name())
+	if sel == nil {
+		return nil, nil
+	}
+	fn := t.prog.MethodValue(sel)
+	if fn == nil || fn.Synthetic != "" {
+		return nil, nil
+	}
+	return fn, ct
+}
+
 func (t *tr) contractFor(cc *ssa.CallCommon) *FuncSpec {
 	if key, _ := t.globalFuncCallee(cc); key != "" {
 		return t.eng.specs.Funcs[key]
+	}
+	if fn, _ := t.devirtualize(cc); fn != nil {
+		if fs := t.eng.specs.Funcs[fn.String()]; fs != nil {
+			return fs
+		}
 	}
 	if cc.IsInvoke() {
 		return t.eng.specs.Funcs["invoke:"+types.TypeString(cc.Value.Type(), nil)+"."+cc.Method.Name()]
@@ -1898,6 +1972,9 @@ func (t *tr) computeCallOrdinals() {
 }
 
 func (t *tr) calleeName(cc *ssa.CallCommon) string {
+	if fn, _ := t.devirtualize(cc); fn != nil {
+		return fn.String()
+	}
 	switch {
 	case cc.IsInvoke():
 		return "invoke:" + types.TypeString(cc.Value.Type(), nil) + "." + cc.Method.Name()
